@@ -394,7 +394,9 @@ class Param():
         def new_packet_cb(pk):
             if pk.channel == MISC_CHANNEL and pk.data[0] == MISC_GET_DEFAULT_VALUE and \
                     struct.unpack('<H', pk.data[1:3])[0] == element.ident:
-                if pk.data[3] == errno.ENOENT:
+                # The error reply is exactly command, id and the error code; a value whose
+                # first byte happens to equal ENOENT is longer (except for one-byte types)
+                if len(pk.data) == 4 and pk.data[3] == errno.ENOENT:
                     callback(complete_name, None)
                     self.cf.remove_port_callback(CRTPPort.PARAM, new_packet_cb)
                     return
